@@ -359,14 +359,15 @@ fn check_schedule(sh: &Shared, now: i64, s: i64, unit: Unit, n: i64, modulate: b
         return;
     }
     // the delay is unknown to the oracle only up to its bound: 0 <= delay < max
-    let maxd = max_delay as i64;
+    // (bounds up to u64::MAX occur in the huge profile: no wrapping arithmetic on them)
+    let maxd = i64::try_from(max_delay).unwrap_or(i64::MAX);
     // try to identify the delay: s - expected must be in [0, max)
     // first compute expectation assuming delay 0 for the proviso probes, then refine
     let e0 = calendar::expected_boundary(now, s, unit, n, modulate);
     match e0 {
         Expect::Exactly(b) => {
             let d = s - b;
-            let ok = if maxd == 0 { d == 0 } else { d >= 0 && d < maxd * 1_000_000_000 && d % 1_000_000_000 == 0 };
+            let ok = if maxd == 0 { d == 0 } else { d >= 0 && d < maxd.saturating_mul(1_000_000_000) && d % 1_000_000_000 == 0 };
             if !ok {
                 // the offset proviso was evaluated at s (including the delay); re-evaluate at the boundary itself
                 if let Expect::Exactly(b2) = calendar::expected_boundary(now, b, unit, n, modulate) {
